@@ -9,7 +9,7 @@ from common import Failure
 import slice_s as S
 
 QUICK = dict(s_runs=1200, s_enum=6, g_graphs=150, g_sels=6)
-THOROUGH = dict(s_runs=30000, s_enum=400, g_graphs=3000, g_sels=10)
+THOROUGH = dict(s_runs=60000, s_enum=500, g_graphs=10000, g_sels=10)
 
 
 def corpus_items(pid, kind):
@@ -1178,7 +1178,7 @@ import slice_c as C  # noqa: E402
 
 
 def run_C(pid, tier, seed):
-    n_dags = 200 if tier == "quick" else 3000
+    n_dags = 200 if tier == "quick" else 6000
     per = 6 if tier == "quick" else 12
     failures, samples = [], []
     stats = dict(dags=0, compositions=0, valueerrors=0, with_flag_input=0, ellipsis=0, alias_tag=0, ambiguous=0,
@@ -1323,7 +1323,7 @@ import slice_t as T  # noqa: E402
 
 
 def run_T(pid, tier, seed):
-    n = 400 if tier == "quick" else 4000
+    n = 400 if tier == "quick" else 15000
     failures, samples = [], []
     stats = dict(interleavings=0, threads_hist={}, with_overlapping_build=0, exhaustive_programs=0,
                  exhaustive_interleavings=0, concurrent_call_batches=0, hung=0)
